@@ -27,7 +27,7 @@ RULE = (
     "generations share a clock second or a nested history exists); distinct by canonical scenario hash."
 )
 ASSUMPTIONS = ["the clock is the real one or freezegun's; no concurrent second writer on the same history"]
-BUDGET = {"quick": (220, 4), "thorough": (8000, 16)}
+BUDGET = {"quick": (220, 4), "thorough": (24000, 16)}
 REQUIRED = ["gens>=3", "failed_run", "same_second", "nested", "sf"]
 
 CFG = {
